@@ -119,7 +119,8 @@ def pattern(n, salt=1):
 
 
 def words(s):
-    return b"".join(ch.encode() * 4 for ch in s)
+    # '0' is a chunk of zero bytes: data that a "sparse output" shortcut would leave unwritten
+    return b"".join((b"\0" if ch == "0" else ch.encode()) * 4 for ch in s)
 
 
 class Viol:
@@ -153,7 +154,8 @@ SEEDS = ["none", "file", "stdin", "output-itself"]
 def source_of(kind):
     if kind == "empty":
         return b""
-    return words("ABCDABEF") if kind == "words" else pattern(3000, 7)
+    # both sources hold a chunk that is all zeros (4 bytes / a run of 700 zero bytes under a 256-byte maximum)
+    return words("ABC0ABEF") if kind == "words" else pattern(1500, 7) + b"\0" * 700 + pattern(800, 9)
 
 
 def reversed_chunks(kind, src):
@@ -463,7 +465,7 @@ def appearing_output(ctx, viol):
     root = tempfile.mkdtemp(prefix="verif-grid-race-")
     n = 0
     try:
-        src = words("ABCDABEF")
+        src = words("ABC0ABEF")
         with open(os.path.join(root, "src.bin"), "wb") as f:
             f.write(src)
         r = sh([bita, "compress", "--fixed-size", "4B", "--compression", "none", "-i", "src.bin", "a.cba"], root)
